@@ -75,6 +75,7 @@ public:
 
     bool checkForImportCycles(const ImportSourcePtr &importSource, const History &history, const HistoryEpochPtr &h, const std::string &action);
     bool checkUnitsForCycles(const UnitsPtr &units, History &history);
+    bool checkUnitsForCycles(const UnitsPtr &units, History &history, std::vector<UnitsPtr> &unitsBeingChecked);
     bool checkComponentForCycles(const ComponentPtr &component, History &history);
 
     /**
@@ -148,18 +149,30 @@ std::string Importer::ImporterImpl::resolvingUrl(const ImportSourcePtr &importSo
 
 bool Importer::ImporterImpl::checkUnitsForCycles(const UnitsPtr &units, History &history)
 {
+    std::vector<UnitsPtr> unitsBeingChecked;
+    return checkUnitsForCycles(units, history, unitsBeingChecked);
+}
+
+bool Importer::ImporterImpl::checkUnitsForCycles(const UnitsPtr &units, History &history, std::vector<UnitsPtr> &unitsBeingChecked)
+{
     // Even if these units are not imported, they might have imported children.
     if (!units->isImport()) {
+        // Units that (directly or indirectly) refer to themselves are not an import issue.
+        if (std::find(unitsBeingChecked.begin(), unitsBeingChecked.end(), units) != unitsBeingChecked.end()) {
+            return false;
+        }
+        unitsBeingChecked.push_back(units);
         for (size_t index = 0; index < units->unitCount(); ++index) {
             std::string ref = units->unitAttributeReference(index);
             // If the child units are imported, check them too.
             auto model = owningModel(units);
             if (model->hasUnits(ref)) {
-                if (checkUnitsForCycles(model->units(ref), history)) {
+                if (checkUnitsForCycles(model->units(ref), history, unitsBeingChecked)) {
                     return true;
                 }
             }
         }
+        unitsBeingChecked.pop_back();
         return false;
     }
 
@@ -194,7 +207,7 @@ bool Importer::ImporterImpl::checkUnitsForCycles(const UnitsPtr &units, History 
         return true;
     }
 
-    return checkUnitsForCycles(importedUnits, history);
+    return checkUnitsForCycles(importedUnits, history, unitsBeingChecked);
 }
 
 bool Importer::ImporterImpl::checkComponentForCycles(const ComponentPtr &component, History &history)
